@@ -44,3 +44,6 @@ add("C14", "exploration", "bounded-exhaustive enumeration of (bucket schema, inp
 add("C15", "exploration", "bounded-exhaustive enumeration of creatable schemas x later writes x restart on the same device",
     "column counts up to 1024 x name lengths up to 256 (1Min, 1D), every type x every timeframe, fixed/variable, explicit create and create-by-first-write, later write none / mid-year / first interval of the year; the server is restarted on the device image and must report and enforce exactly the created schema",
     TB + "; UTC", "seqmc")
+add("C16", "exploration", "bounded-exhaustive enumeration of key strings x operations with a before/after hash of everything outside the root",
+    "all 11110 keys of 1-4 components over a 10-symbol alphabet ('..', '.', empty, absolute-looking, spaces, '*', ',', ':') x create/write/query/getinfo/destroy plus create-then-destroy and write-then-destroy for '..' keys, on an in-memory device holding bucket-shaped trees around the root",
+    "Go toolchain; rewriter; vos path resolution (filepath.Clean, no symlinks)", "seqmc")
